@@ -181,18 +181,20 @@ fn real_main() {
             let k: usize = arg("--k", "0").parse().unwrap();
             let base = |name: &str, init_cap: usize, ns: Vec<usize>| recycle::Params {
                 quantum: if init_cap >= 1024 { 100 } else { 1 },
-                name: format!("{}:cap{}:k{}{}{}", name, init_cap, k, if flag("--roundtrip") { ":roundtrip" } else { "" }, if flag("--unsplit") { ":unsplit" } else { "" }),
+                name: format!("{}:cap{}:k{}{}{}", name, init_cap, k, if flag("--roundtrip") { ":roundtrip" } else { "" }, if flag("--unsplit") { ":unsplit" } else { "" }) + if flag("--appends") { ":appends" } else { "" },
                 init_cap,
                 max_leftover: *ns.iter().max().unwrap(),
                 ns,
                 k,
                 roundtrip: flag("--roundtrip"),
                 unsplit: flag("--unsplit"),
+                appends: flag("--appends"),
                 parity_odd: parity == "odd",
                 max_states: arg("--max-states", "1000000").parse().unwrap(),
+                max_seconds: arg("--max-seconds", "45").parse().unwrap(),
             };
             let params: Vec<recycle::Params> = match set.as_str() {
-                "small" => [0usize, 8, 16].iter().map(|&c| base("small", c, vec![1, 3, 7])).collect(),
+                "small" => [0usize, 8, 16].iter().filter(|&&c| arg("--cap", "all") == "all" || arg("--cap", "all") == c.to_string()).map(|&c| base("small", c, vec![1, 3, 7])).collect(),
                 "t1k" => vec![base("t1k", 1024, vec![100, 1000, 5000])],
                 "t2k" => vec![base("t2k", 2048, vec![100, 1000, 5000])],
                 _ => vec![base("t64k", 65536, vec![100, 1000, 5000])],
@@ -216,7 +218,7 @@ fn real_main() {
                     rep.states += words;
                     rep.transitions += steps;
                     rep.distinct_nontrivial += words;
-                    rep.sample(format!("{}: {} periodic schedules of period <= {} x {} rounds, {} steps", p.name, words, period, 4 * arg("--rounds", "100").parse::<usize>().unwrap(), steps));
+                    rep.sample(format!("{}: {} periodic schedules of period <= {} x {} rounds, {} steps", p.name, words, period, 8 * arg("--rounds", "100").parse::<usize>().unwrap(), steps));
                     continue;
                 }
                 let o = recycle::explore(p, &mut rep);
@@ -227,7 +229,7 @@ fn real_main() {
                 rep.distinct_nontrivial += o.states;
                 if !o.closed {
                     rep.exhaustive = false;
-                    rep.caps.push(format!("{}: state graph not closed within {} states (BFS depth {})", p.name, p.max_states, o.depth));
+                    rep.caps.push(format!("{}: state graph not closed within {} states / {} s (BFS depth {})", p.name, p.max_states, p.max_seconds, o.depth));
                 }
                 rep.sample(format!("{}: {} states, {} transitions, closed={} at BFS depth {}, max live bytes {}, allocating edges {} (on cycles: {})", p.name, o.states, o.transitions, o.closed, o.depth, o.max_live, o.alloc_edges, o.alloc_edges_on_cycles));
                 if period > 0 {
